@@ -21,6 +21,7 @@ fn main()
 	match args[1].as_str()
 	{
 		"front" => front::stream(&args[2]),
+		"fuzz" => delta::fuzz_stream(&args[2]),
 		"lex" => delta::lex_stream(&args[2]),
 		"delta-tree" => delta::stream(&args[2]),
 		"diag" => diag::stream(&args[2]),
